@@ -1,3 +1,96 @@
 package ref
 
-func igamc(a, x float64) float64 { return 0 }
+import "math"
+
+// Cephes igam/igamc (Moshier): regularized incomplete gamma functions.
+const (
+	maxLog = 7.09782712893383996732e2 // log(DBL_MAX)
+	macheP = 1.11022302462515654042e-16 // 2^-53
+	bigV   = 4.503599627370496e15       // 2^52
+	bigInv = 2.22044604925031308085e-16 // 2^-52
+)
+
+func lgam(x float64) float64 {
+	v, s := math.Lgamma(x)
+	return v * float64(s)
+}
+
+// igam: P(a,x) by the power series x^a e^-x / Gamma(a+1) * sum x^k/((a+1)...(a+k)); complement for x > 1 and x > a.
+func igam(a, x float64) float64 {
+	if x <= 0 || a <= 0 {
+		return 0
+	}
+	if x > 1 && x > a {
+		return 1 - igamc(a, x)
+	}
+	ax := a*math.Log(x) - x - lgam(a)
+	if ax < -maxLog {
+		return 0
+	}
+	ax = math.Exp(ax)
+	r := a
+	c := 1.0
+	ans := 1.0
+	for {
+		r += 1
+		c *= x / r
+		ans += c
+		if !(c/ans > macheP) {
+			break
+		}
+	}
+	return ans * ax / a
+}
+
+// igamc: Q(a,x) by the continued fraction for x >= 1 and x >= a; complement of the series otherwise.
+func igamc(a, x float64) float64 {
+	if x <= 0 || a <= 0 {
+		return 1
+	}
+	if x < 1 || x < a {
+		return 1 - igam(a, x)
+	}
+	ax := a*math.Log(x) - x - lgam(a)
+	if ax < -maxLog {
+		return 0
+	}
+	ax = math.Exp(ax)
+	y := 1 - a
+	z := x + y + 1
+	c := 0.0
+	pkm2 := 1.0
+	qkm2 := x
+	pkm1 := x + 1
+	qkm1 := z * x
+	ans := pkm1 / qkm1
+	for {
+		c += 1
+		y += 1
+		z += 2
+		yc := y * c
+		pk := pkm1*z - pkm2*yc
+		qk := qkm1*z - qkm2*yc
+		var t float64
+		if qk != 0 {
+			r := pk / qk
+			t = math.Abs((ans - r) / r)
+			ans = r
+		} else {
+			t = 1
+		}
+		pkm2 = pkm1
+		pkm1 = pk
+		qkm2 = qkm1
+		qkm1 = qk
+		if math.Abs(pk) > bigV {
+			pkm2 *= bigInv
+			pkm1 *= bigInv
+			qkm2 *= bigInv
+			qkm1 *= bigInv
+		}
+		if !(t > macheP) {
+			break
+		}
+	}
+	return ans * ax
+}
